@@ -128,6 +128,28 @@ PROPS["C12"] = {"theorems": ["C12_total", "C12_totalL", "C12_mirror_index", "C12
                         "trees; all counted cases are non-trivial (an actual error tree rendered twice)"}
 
 
+def _run_purity(pid: str, tier: str, seed: int, spec: dict, scale: float = 1.0, salt: str = "") -> dict:
+    from . import purity_stream
+    return purity_stream.run(pid, tier, seed, spec, scale, salt)
+
+
+def _replay_purity(case: dict) -> List[str]:
+    from . import purity_stream
+    return purity_stream.replay_case(case)
+
+
+PROPS["C13"] = {"theorems": ["Sched.noninterference", "Sched.same_result", "C13_history_independent", "Effects.confined"],
+                "run": _run_purity, "replay": _replay_purity,
+                "rule": "per case one shared validator instance and 2-8 inputs: (a) deep snapshots of input and validator "
+                        "attribute graph around every call, (b) each call compared with a fresh instance, (c) 2-3 async "
+                        "validations interleaved at their await points - every interleaving when the total number of "
+                        "resumptions is <= 8 (quick) / 10 (thorough), 30 sampled schedules beyond, (d) 4 preemptive threads on a "
+                        "sample; non-trivial = more than one interleaving was executed",
+                "level_note": "thread preemption is sampled on the implementation only (the theorem is about cooperative "
+                              "interleavings plus a syntactic write-confinement table produced by harness/effects.py, which is "
+                              "trusted); otherwise as for the other properties"}
+
+
 def run_core(pid: str, tier: str, seed: int, spec: dict, scale: float = 1.0, salt: str = "") -> dict:
     n = int((spec["quick_n"] if tier == "quick" else spec["thorough_n"]) * scale)
     opts = dict(spec.get("opts", {}))
